@@ -22,14 +22,16 @@ Definition key_in (k : bytes) (l : list (bytes * value)) : bool :=
 Fixpoint nodup_keys (l : list (bytes * value)) : bool :=
   match l with [] => true | (k, _) :: r => negb (key_in k r) && nodup_keys r end.
 
+Definition no_semi (t : bytes) : bool := forallb (fun c => negb (c =? 59)) t.
+
 (* values of the kinds the codec claims (null, bool, int, string, list, string-keyed map): ints
-   are 64-bit, an ObjectValue has no duplicate keys, lengths fit an int.  Floats are excluded:
-   serialize() refuses them (known finding ser:enc:unsupported:float). *)
+   are 64-bit, an ObjectValue has no duplicate keys, lengths fit an int; a float is identified with
+   its text, which must be a float text (what strconv prints always is). *)
 Fixpoint serializable (v : value) : bool :=
   match v with
   | VNull | VBool _ => true
   | VInt z => int64_ok z
-  | VFloat _ => false
+  | VFloat t => float_text_ok t && no_semi t
   | VStr s => len_ok s
   | VList l => len_ok l && forallb serializable l
   | VMap l => len_ok l && nodup_keys l && forallb (fun kv => len_ok (fst kv) && serializable (snd kv)) l
@@ -56,6 +58,8 @@ Inductive ser_text : bytes -> value -> Prop :=
 | st_true : ser_text [98; 58; 49; 59] (VBool true)
 | st_int : forall sg neg ds z, sign_text sg neg -> digits ds -> int_of_text neg ds = Some z ->
            ser_text ([105; 58] ++ sg ++ ds ++ [59]) (VInt z)
+| st_float : forall c, float_text_ok c = true -> no_semi c = true ->
+             ser_text ([100; 58] ++ c ++ [59]) (VFloat c)
 | st_str : forall ds s, digits ds -> val_digits ds = N.of_nat (length s) -> val_digits ds <= max_int ->
            ser_text ([115; 58] ++ ds ++ [58; 34] ++ s ++ [34; 59]) (VStr s)
 | st_arr : forall ds body kvs v, digits ds -> val_digits ds = N.of_nat (length kvs) ->
